@@ -301,7 +301,7 @@ class Parser:
                 self.eat(":")
                 # `name: &mut T` is a mutable OUT parameter
                 if self.at("&") and self.peek(1)[1] == "mut":
-                    mut = True
+                    mut = "out"
                 params.append((pname, self.type_(), mut))
             if not self.opt(","):
                 break
@@ -336,6 +336,8 @@ class Parser:
                 self.i += 3
                 name = self.ident()
                 self.eat(")")
+                if self.opt(":"):
+                    self.type_()       # `let Some(x): Option<T> = ..`: the annotation names the entry's type, known from the store
                 self.eat("=")
                 e = self.expr(no_struct=True)
                 self.eat("else")
@@ -392,6 +394,18 @@ class Parser:
                 self.i += 1
                 self.opt(";")
                 stmts.append(("break",))
+                continue
+            if self.at("while") and self.peek(1)[1] == "let":
+                self.i += 2
+                if not (self.peek()[1] == "Some" and self.peek(1)[1] == "("):
+                    raise Unsupported("while-let with a pattern other than Some(x)")
+                self.i += 2
+                name = self.ident()
+                self.eat(")")
+                self.eat("=")
+                c = self.expr(no_struct=True)
+                b = self.block()
+                stmts.append(("while", ("letsome", name, c), b))
                 continue
             if self.at("while"):
                 self.i += 1
@@ -589,14 +603,17 @@ class Parser:
             return self.block()
         if v == "if" and self.peek(1)[1] == "let":
             self.i += 2
-            if not (self.peek()[1] == "Some" and self.peek(1)[1] == "("):
-                raise Unsupported("if-let with a pattern other than Some(x)")
+            if not (self.peek()[1] in ("Some", "Ok") and self.peek(1)[1] == "("):
+                raise Unsupported("if-let with a pattern other than Some(x) / Ok(x)")
+            is_ok_ = self.peek()[1] == "Ok"
             self.i += 2
             self.opt("mut")            # `Some(mut x)`: the binding is a local like any other
             name = self.ident()
             self.eat(")")
             self.eat("=")
             c = self.expr(no_struct=True)
+            if is_ok_:
+                c = ("mcall", c, "ok", [])     # `if let Ok(x) = r` is `if let Some(x) = r.ok()`
             b = self.block()
             el = None
             if self.opt("else"):
@@ -734,13 +751,17 @@ class Parser:
             sname = self.ident()
             self.eat("{")
             flds = []
+            rest_ = False
             while not self.at("}"):
+                if self.opt(".."):
+                    rest_ = True       # `..`: the fields not named are not bound
+                    break
                 flds.append(self.ident())
                 if not self.opt(","):
                     break
             self.eat("}")
             self.eat(")")
-            return ("vstruct", segs, sname, flds)
+            return ("vstruct", segs, sname, flds) + (("rest",) if rest_ else ())
         if len(segs) == 2 and segs[0] in VTUPLE_ENUMS and self.at("("):
             # `Enum::Variant(a, b)` of an enum that is specialized away before translation
             self.i += 1
@@ -755,6 +776,9 @@ class Parser:
 
 
 VTUPLE_ENUMS = set()
+
+
+OUTS = {}     # (namespace, function) -> positions of its `&mut` OUT parameters: the function returns their final values too
 
 
 def flatten_ast(e):
@@ -1187,6 +1211,19 @@ class Gen:
             return (f"({{ {', '.join(parts)} }} : {e[1]})", e[1])
         if e[0] == "mcall" and e[2] == "clone" and not e[3]:
             return self.pure(e[1], env)
+        if e[0] == "mcall" and e[2] == "ok" and not e[3]:
+            l, t = self.pure(e[1], env)
+            if not t.startswith("Result<"):
+                raise Unsupported(".ok() of " + t)
+            return (l, "Option<" + t[7:-1] + ">")       # `Ok(v)` = `some v`, `Err(_)` = `none`
+        if e[0] == "call" and e[1] == ("path", ["i128", "try_from_val"]) and len(e[2]) == 2 and self.is_handle(e[2][0], env) \
+                and "i128_try_from_val" in getattr(self, "reads", {}):
+            # the host's conversion of a value to i128: a function of the reads record (`none` = not an i128)
+            l, t = self.pure(e[2][1], env)
+            if t != "Val":
+                raise Unsupported("i128::try_from_val of " + t)
+            self.uses_reads = True
+            return (f"(envr.i128_try_from_val {l})", "Result<i128>")
         if e[0] == "mcall" and e[2] == "as_ref" and not e[3]:
             l, t = self.pure(e[1], env)
             if not t.startswith("Option<"):
@@ -1679,6 +1716,25 @@ class Gen:
             return self.branch(e[1], env, lambda: self.tr_block(e[2], env, k, ret), lambda: self.tr_block(e[3], env, k, ret), ret)
         if kind == "block":
             return self.tr_block(e, env, k, ret)
+        if kind == "match" and len(e[2]) == 2 and e[2][0][0][0] == "vstruct" and e[2][1][0][0] == "wild":
+            # `match x { Enum::Variant(Struct { a, b, .. }) => A, _ => B }` as a VALUE: the named eliminator of the
+            # payload enum; the continuation runs in both arms
+            (_, segs_, sname_, flds_, *rest_), body1 = e[2][0]
+            body2 = e[2][1][1]
+            en_, vn_ = segs_
+            pen_ = getattr(self, "penums", {}).get(en_)
+            if not pen_ or dict(pen_).get(vn_) != sname_:
+                raise Unsupported(f"payload pattern {en_}::{vn_}({sname_})")
+            sflds_ = dict(getattr(self, "structs", {}).get(sname_, []))
+            if (set(flds_) != set(sflds_)) if not rest_ else (not set(flds_) <= set(sflds_)):
+                raise Unsupported(f"payload pattern of {sname_}: fields {flds_}")
+            def kmvv(sv, st_):
+                if st_ != en_:
+                    raise Unsupported(f"payload match on {st_}")
+                pv = self.fresh("p")
+                env1 = dict(env, **{f_: (f"{pv}.{f_}", sflds_[f_]) for f_ in flds_})
+                return f"({en_}.case{vn_} {sv}\n (fun {pv} =>\n {self.tr_block(body1, env1, k, ret)})\n ({self.tr_block(body2, env, k, ret)}))"
+            return self.tr(e[1], env, kmvv, ret)
         if kind == "match":
             def km_int(sv, st):
                 # `match n { CONST => a, x if guard => b, _ => c }` on an integer: an if-chain
@@ -1991,10 +2047,32 @@ class Gen:
         for st in stmts:
             if st[0] == "assign":
                 lhs = self.strip(st[1])
+                if lhs[0] == "field" and self.strip(lhs[1])[0] == "var":
+                    lhs = self.strip(lhs[1])         # `x.f = v`: the struct value `x` is re-bound
                 if lhs[0] != "var":
                     raise Unsupported("assignment to a non-variable")
                 acc.add(lhs[1])
-            elif st[0] == "expr" and self.strip(st[1])[0] == "mcall" and self.strip(st[1])[2] in ("push_back", "append", "extend_from_array", "remove") \
+            elif st[0] == "expr" and self.strip(st[1])[0] == "mcall" and self.strip(st[1])[2] in ("push_back", "set") \
+                    and self.strip(self.strip(st[1])[1])[0] == "field" and self.strip(self.strip(self.strip(st[1])[1])[1])[0] == "var":
+                acc.add(self.strip(self.strip(self.strip(st[1])[1])[1])[1])      # `x.f.push_back(v)` / `x.f.set(k, v)`
+            elif st[0] == "let" and self.strip(st[3])[0] == "call" and self.strip(st[3])[1][0] == "var" \
+                    and (self.cur_ns, self.strip(st[3])[1][1]) in OUTS:
+                for a_ in self.strip(st[3])[2]:
+                    a_ = self.strip(a_)
+                    if a_[0] == "field" and self.strip(a_[1])[0] == "var":
+                        a_ = self.strip(a_[1])
+                    if a_[0] == "var" and a_[1] not in ("e", "_e"):
+                        pass
+                lv_ = [self.strip(x_) for x_ in self.strip(st[3])[2]]
+                real_ = [x_ for x_ in lv_ if x_ not in (("var", "e"), ("var", "_e"))]
+                for j_ in OUTS[(self.cur_ns, self.strip(st[3])[1][1])]:
+                    if j_ < len(real_):
+                        t_ = real_[j_]
+                        if t_[0] == "field" and self.strip(t_[1])[0] == "var":
+                            t_ = self.strip(t_[1])
+                        if t_[0] == "var":
+                            acc.add(t_[1])           # the place handed to a `&mut` parameter is re-bound
+            elif st[0] == "expr" and self.strip(st[1])[0] == "mcall" and self.strip(st[1])[2] in ("push_back", "append", "extend_from_array", "remove", "pop_front") \
                     and self.strip(self.strip(st[1])[1])[0] == "var":
                 acc.add(self.strip(self.strip(st[1])[1])[1])     # a growing collection is a re-bound variable
             elif st[0] == "expr" and self.strip(st[1])[0] == "mcall" and self.strip(st[1])[2] == "set" and len(self.strip(st[1])[3]) == 2 \
@@ -2027,6 +2105,29 @@ class Gen:
             if i == len(stmts):
                 return k_end(env)
             s = stmts[i]
+            if s[0] == "let" and self.strip(s[3])[0] == "call" and self.strip(s[3])[1][0] == "var" \
+                    and (self.cur_ns, self.strip(s[3])[1][1]) in OUTS:
+                # `let r = f(&mut lv, ..);` — `f` returns its result and the final values of its `&mut` parameters,
+                # which are assigned back to the places named at the call (a local, or a field of a local struct)
+                c_ = self.strip(s[3])
+                fname_ = c_[1][1]
+                real_ = [a_ for a_ in c_[2] if not (self.strip(a_) in (("var", "e"), ("var", "_e")) or self.is_handle(a_, env))]
+                pos_ = OUTS[(self.cur_ns, fname_)]
+                if len(pos_) != 1:
+                    raise Unsupported("more than one out parameter")
+                lv_ = self.strip(real_[pos_[0]])
+                def kout(a, t):
+                    env2 = dict(env, **{s[1]: (f"{a}.1", t)})
+                    if lv_[0] == "var" and lv_[1] in env:
+                        env2[lv_[1]] = (f"{a}.2", env[lv_[1]][1])
+                    elif lv_[0] == "field" and self.strip(lv_[1])[0] == "var" and self.strip(lv_[1])[1] in env:
+                        xn_ = self.strip(lv_[1])[1]
+                        xo_, xt_ = env[xn_]
+                        env2[xn_] = (f"({{ {xo_} with {lv_[2]} := {a}.2 }} : {xt_})", xt_)
+                    else:
+                        raise Unsupported("out argument that is neither a local nor a field of a local")
+                    return go(i + 1, env2)
+                return self.tr(s[3], env, kout, ret)
             if s[0] == "break":
                 if getattr(self, "break_k", None) is None:
                     raise Unsupported("break outside a translated for loop")
@@ -2095,18 +2196,21 @@ class Gen:
                 m_ = self.strip(s[1])
                 if len(m_[2]) != 2 or m_[2][0][0][0] != "vstruct" or m_[2][1][0][0] != "wild":
                     raise Unsupported("payload match: expected one variant arm and a catch-all")
-                (_, segs_, sname_, flds_), body1 = m_[2][0]
+                (_, segs_, sname_, flds_, *rest_), body1 = m_[2][0]
                 body2 = m_[2][1][1]
                 en_, vn_ = segs_
                 pen_ = getattr(self, "penums", {}).get(en_)
                 if not pen_ or dict(pen_).get(vn_) != sname_:
                     raise Unsupported(f"payload pattern {en_}::{vn_}({sname_})")
                 sflds_ = dict(getattr(self, "structs", {}).get(sname_, []))
-                if set(flds_) != set(sflds_):
+                if (set(flds_) != set(sflds_)) if not rest_ else (not set(flds_) <= set(sflds_)):
                     raise Unsupported(f"payload pattern of {sname_}: fields {flds_}")
                 blk = lambda b_: self.as_stmts(b_) if b_[0] == "block" else ("block", [("expr", b_)], None)
                 def arm(b_, env_):
                     b_ = blk(b_)
+                    if b_[2] is not None and self.strip(b_[2])[0] == "macro" and self.strip(b_[2])[1] == "panic_with_error":
+                        # an arm that ends in a panic: what follows the statement is not reached from it
+                        return self.tr_stmts(b_[1], env_, lambda env3: "Comp.panic", ret)
                     if b_[2] is not None:
                         raise Unsupported("payload match arm with a value")
                     return self.tr_stmts(b_[1], env_, lambda env3: go(i + 1, env3), ret)
@@ -2220,6 +2324,32 @@ class Gen:
                     nb = self.fresh(s[1] + "_")
                     return f"(optCase {a}\n (fun {nb} =>\n {go(i + 1, dict(env, **{s[1]: (nb, t[7:-1])}))})\n ({none_code()}))"
                 return self.tr(s[2], env, kle, ret)
+            if s[0] == "assign" and self.strip(s[1])[0] == "field" and s[2] in ("+=", "-=") and self.strip(self.strip(s[1])[1])[0] == "var" \
+                    and self.strip(self.strip(s[1])[1])[1] in env:
+                # `x.f += v;` is `x.f = x.f + v;`
+                stmts2 = list(stmts[i:])
+                stmts2[0] = ("assign", s[1], "=", ("bin", s[2][0], s[1], s[3]))
+                return self.tr_stmts(stmts2, env, k_end, ret)
+            if s[0] == "expr" and self.strip(s[1])[0] == "mcall" and self.strip(s[1])[2] == "push_back" and len(self.strip(s[1])[3]) == 1 \
+                    and self.strip(self.strip(s[1])[1])[0] == "field" and self.strip(self.strip(self.strip(s[1])[1])[1])[0] == "var" \
+                    and self.strip(self.strip(self.strip(s[1])[1])[1])[1] in env:
+                # `x.f.push_back(v);` on a vector-valued field of a local struct value
+                e_ = self.strip(s[1])
+                fe_ = self.strip(e_[1])
+                xn_ = self.strip(fe_[1])[1]
+                xo_, xt_ = env[xn_]
+                ft_ = dict(getattr(self, "structs", {}).get(xt_, [])).get(fe_[2], "")
+                if not ft_.startswith("Vec<"):
+                    raise Unsupported(f"push_back on field {fe_[2]} of {xt_}")
+                def kfp(a, t):
+                    return go(i + 1, dict(env, **{xn_: (f"({{ {xo_} with {fe_[2]} := {xo_}.{fe_[2]} ++ [{as_nat(a, t) if ft_[4:-1] in NATTY else a}] }} : {xt_})", xt_)}))
+                return self.tr(e_[3][0], env, kfp, ret)
+            if s[0] == "expr" and self.strip(s[1])[0] == "mcall" and self.strip(s[1])[2] == "pop_front" and not self.strip(s[1])[3] \
+                    and self.strip(self.strip(s[1])[1])[0] == "var" and env.get(self.strip(self.strip(s[1])[1])[1], ("", ""))[1].startswith("Vec<"):
+                # `v.pop_front();` on a local vector (the returned element is dropped)
+                vn = self.strip(self.strip(s[1])[1])[1]
+                old_, vt_ = env[vn]
+                return go(i + 1, dict(env, **{vn: (f"(List.drop 1 {old_})", vt_)}))
             if s[0] == "assign" and self.strip(s[1])[0] == "field" and s[2] == "=" and self.strip(self.strip(s[1])[1])[0] == "var" \
                     and self.strip(self.strip(s[1])[1])[1] in env:
                 # `x.f = v;` on a local struct value: the struct is re-bound with that field replaced
@@ -2562,7 +2692,23 @@ class Gen:
             plist = f"(st_ : {self.cur_ns}.Store) " + plist
         stc = lambda en: (en["$st"][0] + " ") if st_const else ""
         again = lambda en: f"{name} {fu} {stc(en)}{' '.join(en[v][0] for v in params)}"
-        code = self.branch(s[1], penv, lambda: self.tr_stmts(body[1], penv, again, ret), lambda: (f"Comp.ok (some {tup(penv)})" if opt else f"Comp.ok {tup(penv)}"), ret)
+        done_ = lambda en: (f"Comp.ok (some {tup(en)})" if opt else f"Comp.ok {tup(en)}")
+        saved_break = getattr(self, "break_k", None)
+        self.break_k = done_         # `break`: the loop ends with the current values
+        try:
+            if s[1][0] == "letsome":
+                # `while let Some(x) = e { body }`: the loop ends when `e` is `None`
+                def kwl(a, t):
+                    if not t.startswith("Option<"):
+                        raise Unsupported("while-let on " + t)
+                    nb = self.fresh(s[1][1] + "_")
+                    return (f"(optCase {a}\n (fun {nb} =>\n {self.tr_stmts(body[1], dict(penv, **{s[1][1]: (nb, t[7:-1])}), again, ret)})\n"
+                            f" ({done_(penv)}))")
+                code = self.tr(s[1][2], penv, kwl, ret)
+            else:
+                code = self.branch(s[1], penv, lambda: self.tr_stmts(body[1], penv, again, ret), lambda: done_(penv), ret)
+        finally:
+            self.break_k = saved_break
         self.aux.append(f"def {name} (fuel : Nat) {'(envr : ' + self.cur_ns + '.Reads) ' if rd else ''}{plist} : Comp ({'Option (' + rty + ')' if opt else rty}) :=\n match fuel with\n | 0 => Comp.panic\n | fuel + 1 =>\n {code}\n")
         self.uses_fuel = True
         r, st = self.fresh("r"), self.fresh("st")
@@ -2674,7 +2820,15 @@ class Gen:
             plist = f"(st_ : {self.cur_ns}.Store) " + plist
         rparts = [self.lean_ty(env[m][1]) for m in muts] + ([f"{self.cur_ns}.Store"] if carry_st else [])
         rty = " × ".join(rparts) if not unit_loop else "Unit"
-        tup = lambda en: "(" + ", ".join([en[m][0] for m in muts] + ([en["$st"][0]] if carry_st else [])) + ")"
+        early = has_return(body[1]) and not unit_loop
+        if early and (getattr(self, "ret_wrap", None) or carry_st):
+            raise Unsupported("early return in a loop of a state-changing function / nested loops with early returns")
+        tup0 = lambda en: "(" + ", ".join([en[m][0] for m in muts] + ([en["$st"][0]] if carry_st else [])) + ")"
+        # a loop with loop-carried variables whose body may `return r` from the FUNCTION: the auxiliary result is
+        # `Sum.inl (carried values)` at the end / at a `break`, `Sum.inr r` when the body returned
+        tup = (lambda en: f"(Sum.inl {tup0(en)})") if early else tup0
+        if early:
+            rty = f"Sum ({rty}) {self.lean_ty(ret)}"
         rd = self.cur_ns in getattr(self, "reads_ns", set())
         ev = " envr" if rd else ""
         st_in_env = "$st" in env and not carry_st
@@ -2693,10 +2847,14 @@ class Gen:
             hd = var + "_"
         saved_break = getattr(self, "break_k", None)
         self.break_k = lambda en: f"Comp.ok {tup(en) if not unit_loop else '()'}"     # `break`: the loop ends with the current values
+        if early:
+            self.ret_wrap = lambda x: f"(Sum.inr {x})"
         try:
             code = self.tr_stmts(body[1], benv, again, ret)
         finally:
             self.break_k = saved_break
+            if early:
+                self.ret_wrap = None
         self.aux.append(f"def {name} {'(envr : ' + self.cur_ns + '.Reads) ' if rd else ''}(xs_ : List {self.lean_ty(elt)}) {plist} : Comp ({rty}) :=\n"
                         f" match xs_ with\n | [] => Comp.ok {tup(penv)}\n | {hd} :: rest_ =>\n {code}\n")
         st = self.fresh("st")
@@ -2705,6 +2863,10 @@ class Gen:
         for jx, m in enumerate(muts + (["$st"] if carry_st else [])):
             proj = st if nres == 1 else st + "".join(".2" for _ in range(jx)) + (".1" if jx < nres - 1 else "")
             env2[m] = (proj, env[m][1])
+        if early:
+            r_, v_ = self.fresh("r"), self.fresh("v")
+            return (f"(Comp.bind ({name}{ev} {cl} {(env['$st'][0] + ' ') if (carry_st or st_in_env) else ''}{' '.join(env[v][0] for v in params)}) fun {r_} =>\n"
+                    f" (match {r_} with\n | Sum.inr {v_} => Comp.ok {v_}\n | Sum.inl {st} =>\n {k_after(env2)}))")
         return f"(Comp.bind ({name}{ev} {cl} {(env['$st'][0] + ' ') if (carry_st or st_in_env) else ''}{' '.join(env[v][0] for v in params)}) fun {st} =>\n {k_after(env2)})"
 
     def loop_params(self, env):
@@ -2790,6 +2952,7 @@ class Gen:
         def k_end(env2):
             if "$st" in env2:
                 self.cur_st = env2["$st"][0]
+            self.cur_env = env2
             if tail is None:
                 if ret == "()":
                     return k("()", "()")
@@ -2808,6 +2971,7 @@ class Gen:
         self.param_names = {pn for pn, _, _ in params}
         env, lparams = {}, []
         self_ty = impl_of[0] if impl_of else None
+        params_no = [q for q in params if q[1] not in OPAQUE]
         for pn, pt, mut in params:
             if pt in OPAQUE:
                 continue
@@ -2827,7 +2991,16 @@ class Gen:
             env["$st"] = ("st", "Store")
             self.cur_st = "st"
         self.ret_wrap = (lambda x: f"({x}, {self.cur_st})") if is_writer else None
-        if is_writer:
+        outs_ = [params_no[j][0] for j in OUTS.get((ns, name), [])] if OUTS.get((ns, name)) else []
+        if outs_:
+            # `&mut` parameters: the function returns their final values next to its result (no early `return`)
+            if is_writer:
+                raise Unsupported("out parameters of a state-changing function")
+            def no_ret(x):
+                raise Unsupported("early return in a function with out parameters")
+            self.ret_wrap = no_ret
+            code = self.tr_block(body, env, lambda a, t: "Comp.ok (" + ", ".join([as_nat(a, t) if ret in NATTY else a] + [self.cur_env[o_][0] for o_ in outs_]) + ")", ret)
+        elif is_writer:
             code = self.tr_block(body, env, lambda a, t: f"Comp.ok ({as_nat(a, t) if ret in NATTY else a}, {self.cur_st})", ret)
         else:
             code = self.tr_block(body, env, lambda a, t: f"Comp.ok {as_nat(a, t) if ret in NATTY else a}", ret)
@@ -2840,6 +3013,8 @@ class Gen:
         if self.uses_fuel and not fuel:
             raise Unsupported(f"{name} uses fuel but was not announced")
         rty_l = f"({self.lean_ty(ret)} × {ns}.Store)" if is_writer else self.lean_ty(ret)
+        if outs_:
+            rty_l = "(" + " × ".join([self.lean_ty(ret)] + [self.lean_ty(dict((q[0], q[1]) for q in params_no)[o_]) for o_ in outs_]) + ")"
         return "\n".join(self.aux) + ("\n" if self.aux else "") + \
             f"def {ns}.{name} {fuel}{' '.join(lparams)} : Comp {rty_l} :=\n {code}\n"
 
@@ -3027,6 +3202,18 @@ STRUCTS_ST = {"ContextRule": [("id", "u32"), ("signers", "Vec<Signer>")], "Simpl
 READS_ST = {"SimpleThreshold": {"authorized": "addr2bool"}}
 FILES_ST = [("SimpleThreshold", "packages/accounts/src/policies/simple_threshold.rs",
              ["get_threshold", "can_enforce", "enforce", "set_threshold", "install", "uninstall", "validate_and_set_threshold"])]
+STORE_SL = {"SpendingLimit": {"AccountContext": (["Address", "u32"], "SpendingLimitData")}}
+STRUCTS_SL = {"ContextRule": [("id", "u32"), ("signers", "Vec<Signer>")],
+              "SpendingLimitAccountParams": [("spending_limit", "i128"), ("period_ledgers", "u32")],
+              "SpendingEntry": [("amount", "i128"), ("ledger_sequence", "u32")],
+              "SpendingLimitData": [("spending_limit", "i128"), ("period_ledgers", "u32"), ("spending_history", "Vec<SpendingEntry>"),
+                                    ("cached_total_spent", "i128")],
+              "ContractContext": [("contract", "Address"), ("fn_name", "Symbol"), ("args", "Vec<Val>")]}
+PENUMS_SL = {"Context": [("Contract", "ContractContext"), ("CreateContractHostFn", None), ("CreateContractWithCtorHostFn", None)]}
+READS_SL = {"SpendingLimit": {"authorized": "addr2bool", "ledger_sequence": "u32",
+                              "i128_try_from_val": ("purefn", ["Val"], "Option<i128>")}}
+FILES_SL = [("SpendingLimit", "packages/accounts/src/policies/spending_limit.rs",
+             ["get_spending_limit_data", "can_enforce", "enforce", "set_spending_limit", "install", "uninstall", "cleanup_old_entries"])]
 STORE_IV = {"Verifier": {"ClaimTopicsAndIssuers": ([], "Address"), "IdentityRegistryStorage": ([], "Address")}}
 STRUCTS_IV = {"Claim": [("topic", "u32"), ("scheme", "u32"), ("issuer", "Address"), ("signature", "Bytes"), ("data", "Bytes")]}
 # the other contracts `verify_identity` talks to: functions of the reads record (the called contract first); the
@@ -3130,7 +3317,9 @@ def deps(e, acc):
 
 def translate(repo, FILES=FILES, DEPS=(), imports=("OZ.Model.RustSem",), reads=None, structs=None, tymaps=None,
               store=None, impl_types=None, stubs=None, rename_types=None, key_params=None, fn_prefix=None,
-              allow_traits=(), penums=None, let_stubs=None, writer_stubs=(), spec_enums=None, key_fns=()):
+              allow_traits=(), penums=None, let_stubs=None, writer_stubs=(), spec_enums=None, key_fns=(), penum_params=False):
+    if penum_params:
+        OPAQUE.difference_update(penums or {})      # parameters of a payload-enum type are values here, not handles
     """DEPS: files translated elsewhere whose signatures are needed (parsed, not emitted);
     reads: {namespace: {getter name: Rust type}} — the side-effect-free state getters (`Self::name(e)`)
     that become fields of the record `<namespace>.Reads` passed to every function of that namespace"""
@@ -3173,6 +3362,9 @@ def translate(repo, FILES=FILES, DEPS=(), imports=("OZ.Model.RustSem",), reads=N
             ptys = [(self_ty if t == "Self" else t) for (_, t, _) in f[2] if t not in OPAQUE]
             r = re.sub(r"\bSelf\b", self_ty, f[3]) if self_ty else f[3]
             sigs[(ns, f[1])] = (ptys, r)
+            outs_ = [j for j, (_, _, m_) in enumerate([q for q in f[2] if q[1] not in OPAQUE]) if m_ == "out"]
+            if outs_:
+                OUTS[(ns, f[1])] = outs_
         parsed.append((ns, rel, fns))
     for sn, (sns, after, ptys_, rty_, text_) in (stubs or {}).items():
         sigs[(sns, sn)] = (ptys_, rty_)
@@ -3682,6 +3874,10 @@ def main():
         elif "--nft" in sys.argv:
             txt = translate(repo, FILES_NFT, reads=READS_NFT, structs=STRUCTS_NFT, store=STORE_NFT, impl_types={"Base": "Nft"},
                             rename_types={"ApprovalData": "Nft.ApprovalData"})
+        elif "--spending-limit" in sys.argv:
+            txt = translate(repo, FILES_SL, reads=READS_SL, structs=STRUCTS_SL, penums=PENUMS_SL, store=STORE_SL, penum_params=True,
+                            rename_types={"ContextRule": "SpendingLimit.ContextRule", "Context": "SpendingLimit.Context",
+                                          "ContractContext": "SpendingLimit.ContractContext"})
         elif "--verifier" in sys.argv:
             txt = translate(repo, FILES_IV, reads=READS_IV, structs=STRUCTS_IV, store=STORE_IV,
                             tymaps={"packages/tokens/src/rwa/identity_verifier/storage.rs": {"BytesN<32>": "Bytes32"}},
